@@ -190,6 +190,77 @@ def augmentation_guards(prog: Program, rep, RID: str):
             rep.violation(RID, key, f"self.{nm} is not set from the `{nm}` argument", g.loc())
 
 
+def max_occurrence_rule(prog: Program, rep, RID: str):
+    """graphutils.max_occurrence is the test the greedy route uses to decide whether its paths satisfy a subpath constraint:
+    for each path it must count the constraint *edges* that are edges of the path (consecutive node pairs), weighted by their
+    length (default 1), and return the maximum over the paths."""
+    from rules.common import all_local_defs, substitute_locals
+    from sa.mir import canon_expr
+    f = prog.function("flowpaths.utils.graphutils", "max_occurrence")
+    a = f.node.args.args
+    if len(a) < 3:
+        raise AnalysisError("max_occurrence: signature changed")
+    SEQ, PATHS, LEN = a[0].arg, a[1].arg, a[2].arg
+    key = "max_occurrence"
+    loops = [n for n in f.node.body if isinstance(n, ast.For) and norm(n.iter) == PATHS and isinstance(n.target, ast.Name)]
+    if len(loops) != 1:
+        raise AnalysisError("max_occurrence: loop over the paths not found")
+    lp = loops[0]
+    P = lp.target.id
+    ldefs = {}
+    for s_ in lp.body:
+        if isinstance(s_, ast.Assign) and len(s_.targets) == 1 and isinstance(s_.targets[0], ast.Name) and not (isinstance(s_.value, ast.Constant)):
+            ldefs[s_.targets[0].id] = substitute_locals(s_.value, dict(ldefs))
+    # the occurrence count of one path: accumulator loop or sum() over the constraint's edges
+    cond = val = evar = None
+    for s_ in lp.body:
+        if isinstance(s_, ast.For) and norm(s_.iter) == SEQ:
+            ifs = [x for x in s_.body if isinstance(x, ast.If)]
+            augs = [x for x in ast.walk(s_) if isinstance(x, ast.AugAssign) and isinstance(x.op, ast.Add)]
+            if len(augs) == 1 and len(ifs) == 1 and not ifs[0].orelse and len(s_.body) == 1:
+                cond, val, evar = ifs[0].test, augs[0].value, s_.target
+        for c in [x for x in ast.walk(s_) if isinstance(x, ast.Call) and dotted(x.func) == "sum" and x.args and isinstance(x.args[0], (ast.GeneratorExp, ast.ListComp))]:
+            g = c.args[0]
+            if len(g.generators) == 1 and norm(g.generators[0].iter) == SEQ:
+                cond = ast.BoolOp(op=ast.And(), values=list(g.generators[0].ifs)) if len(g.generators[0].ifs) > 1 else (g.generators[0].ifs[0] if g.generators[0].ifs else None)
+                val, evar = g.elt, g.generators[0].target
+    if cond is None or val is None:
+        raise AnalysisError("max_occurrence: the per-path count (accumulator loop or sum over the constraint's edges under a membership test) is not recognised")
+    cond_s = substitute_locals(cond, ldefs)
+    ev = norm(evar)
+    # membership tests of the condition
+    mems = [c for c in ast.walk(cond_s) if isinstance(c, ast.Compare) and len(c.ops) == 1 and isinstance(c.ops[0], ast.In)]
+
+    def pairs_of_path(container: ast.AST) -> bool:
+        t = norm(canon_expr(container)).replace(" ", "")
+        t = re.sub(r"^(set|list|tuple|frozenset)\((.*)\)$", r"\2", t)
+        pats = [r"^[\[{(]\(%s\[(\w+)\],%s\[\1\+1\]\)for\1inrange\(len\(%s\)-1\)[\]})]$" % (P, P, P),
+                r"^zip\(%s,%s\[1:\]\)$" % (P, P), r"^zip\(%s\[:-1\],%s\[1:\]\)$" % (P, P),
+                r"^[\[{(](\w+)for\1inzip\(%s(\[:-1\])?,%s\[1:\]\)[\]})]$" % (P, P)]
+        return any(re.match(p_, t) for p_ in pats)
+
+    def nodes_of_path(container: ast.AST) -> bool:
+        t = norm(container).replace(" ", "")
+        return t in (P, f"set({P})", f"list({P})", f"frozenset({P})")
+    k1 = key + ":edge-membership"
+    if len(mems) == 1 and norm(mems[0].left) in (ev, ev.strip("()")) and pairs_of_path(mems[0].comparators[0]) and \
+            norm(cond_s) == norm(mems[0]):
+        rep.ok(RID, k1, "a constraint edge counts iff it is one of the consecutive node pairs of the path", f.loc(lp), sample={"test": norm(cond_s)[:120]})
+    elif mems and all(nodes_of_path(m.comparators[0]) for m in mems):
+        rep.violation(RID, k1, f"a constraint edge is counted when `{norm(cond)[:90]}` - its endpoints lie on the path - not when the edge itself is an edge of the path: "
+                      "a path going around a shortcut edge is taken to cover it, so a greedy decomposition that violates a subpath constraint is accepted", f.loc(lp))
+    else:
+        raise AnalysisError(f"max_occurrence: membership test `{norm(cond_s)[:100]}` not recognised")
+    k2 = key + ":length"
+    want = {f"{LEN}.get({ev}, 1)", f"{LEN}.get(({ev.strip('()')}), 1)", f"{LEN}.get({ev.strip('()')}, 1)"}
+    if norm(val) in want:
+        rep.ok(RID, k2, "each counted edge contributes its length (1 by default)", f.loc(lp))
+    elif re.fullmatch(r"%s\.get\(.*, \d+\)|1|%s\[.*\]" % (LEN, LEN), norm(val)):
+        rep.violation(RID, k2, f"a counted edge contributes `{norm(val)}` instead of its length with default 1", f.loc(lp))
+    else:
+        raise AnalysisError(f"max_occurrence: contribution `{norm(val)}` not recognised")
+
+
 def greedy_rejection(prog: Program, rep, RID: str):
     f = prog.own_method("kFlowDecomp", "_get_solution_with_greedy")
     # the constraint loop: for subpath in self.subpath_constraints: ... if gu.max_occurrence(...) < L * c: return False
@@ -276,8 +347,9 @@ def check(prog: Program, rep):
     scale_zero_ignored(prog, rep, "C10.R3")
     rep.rule("C10.R4", "augmentation guards", floor=4)
     augmentation_guards(prog, rep, "C10.R4")
-    rep.rule("C10.R5", "greedy rejection on unmet constraints", floor=2)
+    rep.rule("C10.R5", "greedy rejection on unmet constraints; the coverage test counts path *edges*", floor=4)
     greedy_rejection(prog, rep, "C10.R5")
+    max_occurrence_rule(prog, rep, "C10.R5")
     rep.rule("C10.R6", "constraint edges are trusted for safety only under full coverage; ignore lists are never written", floor=10)
     semantic.trusted_edge_providers(prog, rep, "C10.R6")
     from rules.c18 import class_inputs_not_mutated
